@@ -28,6 +28,7 @@ SHAPES = {
     'deep': [[['Xiq', 'Y']], 'H'],
     'three': ['Xq', 'Xi', 'X'],
     'wide_groups': [['X', 'Y', 'Z'], ['D'], ['Y', 'Xiq', 'H1']],
+    'same_charge_ions': [['Xiq', 'Xq3'], 'Xjq', ['Yq', 'Xiq']],
 }
 
 
@@ -58,7 +59,7 @@ def check_formula(E, name, f, want_pairs, check_fractions=True):
     """f: Formula; want_pairs: oracle (count, atom) list"""
     want = cm.merge_counts(want_pairs)
     got = f.atoms
-    E.fact(name + '.atom_set', set(got.keys()) == set(want.keys()),
+    E.fact(name + '.atom_set', cm.same_atom_sets(got, want),
            note='%s vs %s' % (sorted(map(str, got)), sorted(map(str, want))))
     for a in want:
         if a in got:
@@ -70,7 +71,7 @@ def check_formula(E, name, f, want_pairs, check_fractions=True):
     if check_fractions:
         if m > 0:
             fr = f.mass_fraction
-            E.fact(name + '.fraction_keys', set(fr.keys()) == set(want.keys()))
+            E.fact(name + '.fraction_keys', cm.same_atom_sets(fr, want))
             tot = 0
             for a in want:
                 if a in fr:
@@ -226,14 +227,14 @@ def cases(tier):
     th = tier == 'thorough'
     mp = 64 if not th else 512
     out = []
-    shapes = ['pair', 'group', 'repeat_depth', 'three'] if not th else list(SHAPES)
+    shapes = ['pair', 'group', 'repeat_depth', 'three', 'same_charge_ions'] if not th else list(SHAPES)
     for sn in shapes:
         for how in ('sequence', 'mapping', 'copy', 'Formula'):
             out.append(Case('construct[%s|%s]' % (sn, how), _construct(sn, how), max_paths=mp, timeout_ms=30000))
     out.append(Case('atoms_and_empty', _atom_case, max_paths=8))
     from .c01 import skeletons
     sk = skeletons('quick')
-    pick = sk if th else [sk[i] for i in (11, 23, 42, 46, 50, 55, 59, 66, 67, 68, 72, 73, 76, 77, 80)]
+    pick = sk if th else [sk[i] for i in (11, 23, 42, 46, 47, 48, 52, 57, 61, 68, 69, 70, 74, 75, 78, 79, 82)]
     for name, d in pick:
         out.append(Case('string[%s]' % name, _string_case(d), max_paths=64 if not th else 256, timeout_ms=20000, nsamples=1))
     combos = [('pair', 'group', 'leaf'), ('repeat_depth', 'pair', 'group')]
